@@ -2,7 +2,8 @@
    Directives: ExtrOcamlBasic only (bool, option, list, prod, unit, sumbool mapped to
    OCaml's own; nat, positive, Z, Q stay the extracted inductive types). *)
 From Coq Require Import ZArith QArith List Extraction ExtrOcamlBasic.
-From Inf Require Import base.ExtrBase model.PathM.
+From Inf Require Import base.ExtrBase model.PathM model.PathLimM.
 Extraction Language OCaml.
 Extraction "extract/c15_model.ml" extr_anchor paste reverse copy iadd append ordermin ordermax
-  start_point end_point check_interfaces success.
+  start_point end_point check_interfaces success
+  lempty_path lappend lpaste lreverse lcopy.
